@@ -97,7 +97,7 @@ PROP = {
                   "ack/nack table and publish-before-settle order of the command side. The model is tied to the code by structural facts, by "
                   "differential execution of the command side and by trace inclusion of recorded executions; the property monitor judges every "
                   "recorded execution. The pre-repair listener (D12) is kept as a machine-checked stuck witness.",
-    "level_note": "The Pub/Sub between handler and listener is over-approximated (any delivery order/multiplicity), not modelled; goroutine and "
+    "level_note": "The settle effect of `command` is derived from the handleMessage model of C02 (Props/C18Router.lean) whose tie is re-proved in this check. The Pub/Sub between handler and listener is over-approximated (any delivery order/multiplicity), not modelled; goroutine and "
                   "race freedom are runtime checks.",
     "technique": "Lean 4 invariant, progress and measure proofs over an LTS model + effect-list function; trace-inclusion conformance, differential "
                  "execution and property monitors on hook-instrumented executions of the real code",
